@@ -34,8 +34,9 @@ pub fn run(ctx: &mut Ctx) {
     for case in ctx.cases(600, 60_000) {
         let mut rng = ctx.rng(case);
         let uni = Universe::new(&mut rng, 1);
-        let na = rng.range(0, 24);
-        let nb = rng.range(0, 24);
+        let max_n = if ctx.is_quick() { 24 } else { 64 };
+        let na = rng.range(0, max_n);
+        let nb = rng.range(0, max_n);
         let mut pool = uni.entries(&mut rng, na + nb, 4);
         // shared part: some of B's offers are copies of A's
         let offers_a: Vec<SignedEntry> = pool.drain(..na).collect();
